@@ -267,14 +267,18 @@ def cmpStep (tie : Bool) (or_ : Bool) (left right : E) (ka : Option Cmp) (a : E)
     | _ => Option.none
   else Option.none
 
-/-- the decision phase: both permutations of the loop -/
-def cmpDecide (tie : Bool) (or_ : Bool) (left right : E) (kl : Option Cmp) (lv : Int) (kr : Option Cmp) (rv : Int) : PairRes :=
-  match cmpStep tie or_ left right kl left lv kr right rv with
+/-- first `some` of two attempts, as a `PairRes` -/
+def firstSome (a b : Option E) : PairRes :=
+  match a with
   | some x => .res x
   | Option.none =>
-    match cmpStep tie or_ left right kr right rv kl left lv with
+    match b with
     | some x => .res x
     | Option.none => .none
+
+/-- the decision phase: both permutations of the loop -/
+def cmpDecide (tie : Bool) (or_ : Bool) (left right : E) (kl : Option Cmp) (lv : Int) (kr : Option Cmp) (rv : Int) : PairRes :=
+  firstSome (cmpStep tie or_ left right kl left lv kr right rv) (cmpStep tie or_ left right kr right rv kl left lv)
 
 def cmpPair (or_ : Bool) (left right : E) : PairRes :=
   match cmpParts left, cmpParts right with
@@ -515,6 +519,140 @@ def flatten1 : E → E
   | .or a b => .or (flattenChild false a) (flattenChild false b)
   | e => e
 
+
+/-! ## _flat_simplify (the queue algorithm), parametric in the pair function -/
+
+inductive FK
+  | and | or | add | mul
+  deriving DecidableEq, Repr
+
+def FK.mk : FK → E → E → E
+  | .and, a, b => .and a b
+  | .or, a, b => .or a b
+  | .add, a, b => .add a b
+  | .mul, a, b => .mul a b
+
+/-- `expression.flatten(unnest=False)`: the operands of the same-class chain, pre-order, parentheses kept -/
+def flattenOps : FK → E → List E
+  | .and, .and a b => flattenOps .and a ++ flattenOps .and b
+  | .or, .or a b => flattenOps .or a ++ flattenOps .or b
+  | .add, .add a b => flattenOps .add a ++ flattenOps .add b
+  | .mul, .mul a b => flattenOps .mul a ++ flattenOps .mul b
+  | _, e => [e]
+
+/-- the inner `for b in queue` loop: first `b` that combines with `a`; returns the result and the queue without `b` -/
+def tryPair (pair : E → E → Option E) (a : E) : List E → Option (E × List E)
+  | [] => none
+  | b :: rest =>
+    match pair a b with
+    | some r => some (r, rest)
+    | none =>
+      match tryPair pair a rest with
+      | some (r, rest') => some (r, b :: rest')
+      | none => none
+
+/-- the `while queue` loop: `ops` is the reversed `operands` list -/
+def flatLoop (pair : E → E → Option E) : Nat → List E → List E → List E
+  | 0, q, ops => ops.reverse ++ q
+  | _ + 1, [], ops => ops.reverse
+  | fuel + 1, a :: q, ops =>
+    match tryPair pair a q with
+    | some (r, q') => flatLoop pair fuel (r :: q') ops
+    | none => flatLoop pair fuel q (a :: ops)
+
+/-- `CONNECTOR_COMBINABLE` -/
+def isCombinable : E → Bool
+  | .bool _ | .int _ | .null | .cmp _ _ _ | .is _ _ => true
+  | _ => false
+
+def FK.isConnector : FK → Bool
+  | .and | .or => true
+  | _ => false
+
+/-- `_flat_simplify(expression, simplifier, root)`; `gate` = `root or not expression.same_parent` -/
+def flatSimplify (k : FK) (pair : E → E → Option E) (gate : Bool) (e : E) : E :=
+  if !gate then e else
+  let xs := flattenOps k e
+  if k.isConnector && !xs.any isCombinable then e else
+  let ops := flatLoop pair xs.length xs []
+  if ops.length < xs.length then
+    match ops with
+    | x :: rest => rest.foldl k.mk x
+    | [] => e
+  else e
+
+/-- the pair function `_simplify_connectors` as `_flat_simplify` uses it (`None` and "returned the connector itself" both mean no change) -/
+def connPairOpt (isAnd : Bool) (a b : E) : Option E :=
+  match connPair isAnd a b with
+  | .res r => some r
+  | _ => none
+
+/-- the part of the pair table whose results are exact in 3-valued logic: the constant table and every
+    `_simplify_comparison` result on `c op l`, `c op' r` except the `→ FALSE` ones -/
+def exactPair (isAnd : Bool) (a b : E) : Option E :=
+  match connConst isAnd a b with
+  | some x => some x
+  | none =>
+    match a, b with
+    | .cmp opl c l, .cmp opr c' r =>
+      if c = c' then
+        match numVal? l, numVal? r with
+        | some lv, some rv =>
+          match cmpDecide true (!isAnd) a b (some opl) lv (some opr) rv with
+          | .res x => if x = .bool false then none else some x
+          | _ => none
+        | _, _ => none
+      else none
+    | _, _ => none
+
+
+
+/-! ## remove_complements and uniq_sort as mirrored functions -/
+
+/-- `expression.flatten()` (unnest=True): operands of the same-class chain, each with its parentheses stripped -/
+def flattenU : FK → E → List E
+  | .and, .and a b => flattenU .and a ++ flattenU .and b
+  | .or, .or a b => flattenU .or a ++ flattenU .or b
+  | _, e => [unnest e]
+
+def connKind : E → Option FK
+  | .and _ _ => some .and
+  | .or _ _ => some .or
+  | _ => none
+
+/-- `remove_complements(expression, root)`; `gate` = `root or not same_parent`, `nonnull` = the connector's `nonnull` meta -/
+def removeComplements (gate nonnull : Bool) (e : E) : E :=
+  match connKind e with
+  | none => e
+  | some k =>
+    if !gate then e else
+    let ops := flattenU k e
+    if nonnull && ops.any (fun op => match op with | .not x => ops.contains x | _ => false) then
+      .bool (k != .and)
+    else e
+
+/-- `result_func(*xs, copy=False)` (`exp.and_` / `exp.or_`): a left-nested chain, connector operands parenthesised -/
+def mkChain (k : FK) : List E → E
+  | [] => .bool (k == .and)
+  | [x] => x
+  | x :: rest => rest.foldl (fun acc y => k.mk acc (wrapConn y)) (wrapConn x)
+
+def sameSet (xs ys : List E) : Bool := xs.all (fun x => ys.contains x) && ys.all (fun y => xs.contains y)
+
+/-- `uniq_sort(expression, root)` with the operand order of the result as an explicit parameter (the real order comes from
+    sorting `gen()` texts, which is not modelled): `order` must be a duplicate-free rearrangement of the operands -/
+def uniqSortWith (order : List E) (gate : Bool) (e : E) : E :=
+  match connKind e with
+  | none => e
+  | some k =>
+    if !gate then e else
+    let ops := flattenU k e
+    if order == ops then e
+    else if !sameSet order ops then e
+    else match order with
+      | [x] => mkAnd x (.bool true)
+      | _ => mkChain k order
+
 /-! ## sort_comparison — checked, not mirrored (its choice depends on `gen()` text order) -/
 def checkSortComparison (inverseCmp : Cmp → Cmp) (before after : E) : Bool :=
   before == after ||
@@ -541,6 +679,169 @@ def normalizedM (dnf : Bool) : E → Bool
     normalizedM dnf a && normalizedM dnf b
   | .between a b c | .iff a b c => normalizedM dnf a && normalizedM dnf b && normalizedM dnf c
   | _ => true
+
+
+/-! ## propagate_constants (as repaired: only `column = literal` conjuncts of the AND are harvested) -/
+
+def isColumn : E → Bool
+  | .bcol _ _ | .icol _ _ => true
+  | _ => false
+
+/-- the `column = literal` conjuncts on the AND / Paren spine (what `_is_conjunct_of` admits) -/
+def conjBindings : E → List (E × Int)
+  | .and a b => conjBindings a ++ conjBindings b
+  | .paren a => conjBindings a
+  | .cmp .eq c (.int n) => if isColumn c then [(c, n)] else []
+  | _ => []
+
+def lookupB (m : List (E × Int)) (c : E) : Option Int :=
+  match m with
+  | [] => none
+  | (c', n) :: rest => if c' = c then some n else lookupB rest c
+
+/-- replace every bound column by its constant, except under `col IS NULL` -/
+def substAll (m : List (E × Int)) : E → E
+  | .bcol k nn => match lookupB m (.bcol k nn) with | some n => .int n | none => .bcol k nn
+  | .icol k nn => match lookupB m (.icol k nn) with | some n => .int n | none => .icol k nn
+  | .is a b => if b = .null && isColumn a then .is a b else .is (substAll m a) b
+  | .and a b => .and (substAll m a) (substAll m b)
+  | .or a b => .or (substAll m a) (substAll m b)
+  | .not a => .not (substAll m a)
+  | .paren a => .paren (substAll m a)
+  | .neg a => .neg (substAll m a)
+  | .cmp op a b => .cmp op (substAll m a) (substAll m b)
+  | .add a b => .add (substAll m a) (substAll m b)
+  | .sub a b => .sub (substAll m a) (substAll m b)
+  | .mul a b => .mul (substAll m a) (substAll m b)
+  | .between a lo hi => .between (substAll m a) (substAll m lo) (substAll m hi)
+  | .inList a xs => .inList (substAll m a) (substAll m xs)
+  | .coalesce xs => .coalesce (substAll m xs)
+  | .case ifs d => .case (substAll m ifs) (substAll m d)
+  | .iff c t f => .iff (substAll m c) (substAll m t) (substAll m f)
+  | .cons h t => .cons (substAll m h) (substAll m t)
+  | e => e
+
+/-- the substitution along the spine: the defining `column = literal` conjuncts stay as they are -/
+def substSpine (m : List (E × Int)) : E → E
+  | .and a b => .and (substSpine m a) (substSpine m b)
+  | .paren a => .paren (substSpine m a)
+  | .cmp .eq c (.int n) => if isColumn c then .cmp .eq c (.int n) else substAll m (.cmp .eq c (.int n))
+  | e => substAll m e
+
+def hasDupCols : List (E × Int) → Bool
+  | [] => false
+  | (c, _) :: rest => rest.any (fun p => p.1 == c) || hasDupCols rest
+
+/-- `propagate_constants(expression, root)`; `gate` = `root or not same_parent`.  `none`: a column is bound by two
+    conjuncts (which one wins depends on the BFS visiting order of `walk_in_scope`, not modelled) -/
+def propagateConstants (gate : Bool) (e : E) : Option E :=
+  match e with
+  | .and _ _ =>
+    if gate && normalizedM true e then
+      let m := conjBindings e
+      if hasDupCols m then none else some (substSpine m e)
+    else some e
+  | _ => some e
+
+/-! ## normalize.py: normalization_distance, distributive_law, _distribute -/
+
+/-- `len(tuple(e.find_all(exp.Connector)))` -/
+def countConn : E → Nat
+  | .and a b => countConn a + countConn b + 1
+  | .or a b => countConn a + countConn b + 1
+  | .not a | .paren a | .neg a | .coalesce a => countConn a
+  | .cmp _ a b | .is a b | .inList a b | .case a b | .add a b | .sub a b | .mul a b | .cons a b => countConn a + countConn b
+  | .between a b c | .iff a b c => countConn a + countConn b + countConn c
+  | _ => 0
+
+/-- `_predicate_lengths` (without the depth cut-off, which needs nesting deeper than `max_distance`) -/
+def predLengths (dnf : Bool) : E → List Nat
+  | .paren a => predLengths dnf a
+  | .and a b =>
+    if dnf then (predLengths dnf a).flatMap (fun x => (predLengths dnf b).map (fun y => x + y))
+    else predLengths dnf a ++ predLengths dnf b
+  | .or a b =>
+    if dnf then predLengths dnf a ++ predLengths dnf b
+    else (predLengths dnf a).flatMap (fun x => (predLengths dnf b).map (fun y => x + y))
+  | _ => [1]
+
+/-- `normalization_distance(e, dnf)` with `max_ = inf` -/
+def normalizationDistance (dnf : Bool) (e : E) : Int :=
+  ((predLengths dnf e).foldl (· + ·) 0 : Nat) - ((countConn e + 1 : Nat) : Int)
+
+/-- split a connector of the given polarity -/
+def splitConn (isAnd : Bool) : E → Option (E × E)
+  | .and a b => if isAnd then some (a, b) else none
+  | .or a b => if isAnd then none else some (a, b)
+  | _ => none
+
+def mkConn (isAnd : Bool) (a b : E) : E := if isAnd then mkAnd a b else mkOr a b
+def rawConn (isAnd : Bool) (a b : E) : E := if isAnd then .and a b else .or a b
+
+/-- `_distribute(a, b, from_func, to_func, simplifier)`; `toAnd` = the target polarity (CNF: AND), `us` = uniq_sort
+    (order-dependent, a parameter here), `b` is a connector of the target polarity -/
+def distribute (us : E → E) (toAnd : Bool) (a b : E) : E :=
+  match splitConn toAnd b with
+  | none => rawConn (!toAnd) a b
+  | some (bl, br) =>
+    let f := fun c => mkConn toAnd (us (flatten1 (mkConn (!toAnd) c bl))) (us (flatten1 (mkConn (!toAnd) c br)))
+    match splitConn toAnd a with
+    | some (al, ar) => rawConn toAnd (f al) (f ar)
+    | none => f a
+
+/-- the top-level step of `distributive_law` on a node whose children are already processed -/
+def distTop (us : E → E) (dnf : Bool) (e : E) : E :=
+  match splitConn dnf e with
+  | none => e
+  | some (a0, b0) =>
+    let a := unnest a0
+    let b := unnest b0
+    let isTo := fun x => (splitConn (!dnf) x).isSome
+    if isTo a && isTo b then
+      (if countConn a > countConn b then distribute us (!dnf) a b else distribute us (!dnf) b a)
+    else if isTo a then distribute us (!dnf) b a
+    else if isTo b then distribute us (!dnf) a b
+    else e
+
+mutual
+/-- `distributive_law(e, dnf, max_distance)` on the path where the distance check does not raise -/
+def distLaw (us : E → E) (dnf : Bool) : E → E
+  | .and a b => if normalizedM dnf (.and a b) then .and a b else distTop us dnf (.and (distLaw us dnf a) (distLaw us dnf b))
+  | .or a b => if normalizedM dnf (.or a b) then .or a b else distTop us dnf (.or (distLaw us dnf a) (distLaw us dnf b))
+  | .not a => .not (distLaw us dnf a)
+  | .paren a => .paren (distLaw us dnf a)
+  | .neg a => .neg (distLaw us dnf a)
+  | .cmp op a b => .cmp op (distLaw us dnf a) (distLaw us dnf b)
+  | .is a b => .is (distLaw us dnf a) b
+  | .add a b => .add (distLaw us dnf a) (distLaw us dnf b)
+  | .sub a b => .sub (distLaw us dnf a) (distLaw us dnf b)
+  | .mul a b => .mul (distLaw us dnf a) (distLaw us dnf b)
+  | .between a lo hi => .between (distLaw us dnf a) (distLaw us dnf lo) (distLaw us dnf hi)
+  | .inList a xs => .inList (distLaw us dnf a) (distLawL us dnf xs)
+  | .coalesce xs => .coalesce (distLawL us dnf xs)
+  | .case ifs d => .case (distLawIfs us dnf ifs) (distLaw us dnf d)
+  | .iff c t f => .iff (distLaw us dnf c) (distLaw us dnf t) (distLaw us dnf f)
+  | e => e
+def distLawL (us : E → E) (dnf : Bool) : E → E
+  | .cons h t => .cons (distLaw us dnf h) (distLawL us dnf t)
+  | e => e
+def distLawIfs (us : E → E) (dnf : Bool) : E → E
+  | .cons h rest =>
+    match h with
+    | .iff c t f => .cons (.iff (distLaw us dnf c) (distLaw us dnf t) (distLaw us dnf f)) (distLawIfs us dnf rest)
+    | _ => .cons h (distLawIfs us dnf rest)
+  | e => e
+end
+
+/-- every BETWEEN rewritten (what `node.transform(rewrite_between)` does inside normalize) -/
+def rbAll : E → E
+  | .between a lo hi => .and (.cmp .gte (rbAll a) (rbAll lo)) (.cmp .lte (rbAll a) (rbAll hi))
+  | .and a b => .and (rbAll a) (rbAll b)
+  | .or a b => .or (rbAll a) (rbAll b)
+  | .not (.between a lo hi) => .not (.paren (.and (.cmp .gte (rbAll a) (rbAll lo)) (.cmp .lte (rbAll a) (rbAll hi))))
+  | .not a => .not (rbAll a)
+  | .paren a => .paren (rbAll a)
+  | e => e
 
 /-! ## the verified 3-valued truth-table checker (for uniq_sort, absorb_and_eliminate, remove_complements,
      flatten, De Morgan, distributive_law and whole `normalize` runs)
@@ -614,5 +915,10 @@ def checkStep (inverseCmp : Cmp → Cmp) (r : Rule) (before after : E) : Bool :=
   match r with
   | .sortComparison => checkSortComparison inverseCmp before after
   | _ => before == after || ttCheck before after
+
+/-- what is checked on every observed `normalize(e, dnf) = e'`: equivalence (truth table) AND the result is in the
+    requested normal form (mirrored `normalized`) or is the input (possibly with BETWEEN rewritten) -/
+def checkNormalize (inverseCmp : Cmp → Cmp) (dnf : Bool) (e e' : E) : Bool :=
+  checkStep inverseCmp .normalize e e' && (normalizedM dnf e' || e' == e || e' == rbAll e)
 
 end SqlglotModel.Simplify
